@@ -8,7 +8,7 @@
    lax vs strict: C05, equivalent doors: C06) are evaluated on the observations.
 
    A mismatch never stops validation: it is collected as <<event id, api, tag>> in `bad`
-   (or in `known` when it is explainable only by a deviation listed in KnownDev), so one
+   (or in `known` when it is explainable only by a deviation listed in KnownDev); api = index of the run, so one
    rejection leaves nothing unexamined. *)
 EXTENDS Decoder, Json, IOUtils
 
@@ -142,7 +142,7 @@ ShiftAgree(oo, oi, d, drop, lax) ==  \* oo: outer door (first `drop` layers belo
 
 Nib(b, skip) == IF Len(b) > skip THEN Hi4(B(b, skip)) ELSE -1
 
-\* all relation mismatches of one event: set of <<api, tag>>
+\* all relation mismatches of one event: set of <<run index, tag>>
 RelMism(e) ==
   LET R == e.runs  n == Len(R) IN
   UNION {
@@ -150,36 +150,36 @@ RelMism(e) ==
     \* C04: x slice family, y struct family, same mode and door; not when the struct stops early (DocExtSlotFull)
     (IF x.fam = "slice" /\ y.fam = "struct" /\ x.m = y.m /\ SameRun(x, y)
         /\ ~Final(Drop(e.bytes, y.skip), y.m, "struct", y.entry, y.et, y.upto).full
-     THEN {<<y.api, t>> : t \in StructAgree(x.res, y.res)} ELSE {})
+     THEN {<<j, t>> : t \in StructAgree(x.res, y.res)} ELSE {})
     \cup
     \* C05: x strict, y lax, same family and door
     (IF x.m = "strict" /\ y.m = "lax" /\ x.fam = y.fam /\ SameRun(x, y)
-     THEN {<<y.api, t>> : t \in LaxAgree(x.res, y.res, x.fam)} ELSE {})
+     THEN {<<j, t>> : t \in LaxAgree(x.res, y.res, x.fam)} ELSE {})
     \cup
     \* C06: dispatching vs typed IP door (same mode, family, slice), nibble matches the typed door
     (IF x.entry = "ip" /\ y.entry \in {"ipv4", "ipv6"} /\ x.upto = "ip" /\ y.upto = "ip" /\ x.m = y.m /\ x.fam = y.fam /\ x.skip = y.skip
         /\ Nib(e.bytes, x.skip) = (IF y.entry = "ipv4" THEN 4 ELSE 6)
-     THEN {<<y.api, t>> : t \in TypedAgree(x.res, y.res)} ELSE {})
+     THEN {<<j, t>> : t \in TypedAgree(x.res, y.res)} ELSE {})
     \cup
     \* C06: Ethernet II door vs ether type door behind the 14 byte header
     (IF x.entry = "eth" /\ y.entry = "ether" /\ x.m = y.m /\ x.fam = y.fam /\ x.skip + 14 = y.skip /\ x.upto = y.upto
         /\ Len(e.bytes) >= x.skip + 14 /\ y.et = U16(e.bytes, x.skip + 12)
-     THEN {<<y.api, t>> : t \in ShiftAgree(x.res, y.res, 14, 1, x.m = "lax")} ELSE {})
+     THEN {<<j, t>> : t \in ShiftAgree(x.res, y.res, 14, 1, x.m = "lax")} ELSE {})
     \cup
     \* C06: IPv4/IPv6 ether type door vs IP door on the same bytes (nibble agrees with the ether type)
     (IF x.entry = "ether" /\ y.entry = "ip" /\ x.m = y.m /\ x.fam = y.fam /\ x.skip = y.skip /\ x.upto = "all" /\ y.upto = "all"
         /\ ((x.et = ET_IPV4 /\ Nib(e.bytes, x.skip) = 4) \/ (x.et = ET_IPV6 /\ Nib(e.bytes, x.skip) = 6))
-     THEN {<<y.api, t>> : t \in ShiftAgree(x.res, y.res, 0, 0, x.m = "lax")} ELSE {})
+     THEN {<<j, t>> : t \in ShiftAgree(x.res, y.res, 0, 0, x.m = "lax")} ELSE {})
     : i \in 1..n, j \in 1..n }
 
-\* mismatches of every run against the reference: set of <<api, tag>>
+\* mismatches of every run against the reference: set of <<run index, tag>>
 RefMism(e) ==
   UNION { LET x == e.runs[i]
               b == Drop(e.bytes, x.skip)
               r == FinalDev(b, x.m, x.fam, x.entry, x.et, x.upto, KnownDev)
-          IN {<<x.api, t>> : t \in RunMism(r, x.res, x.fam) \cup (IF x.pl # 1 THEN {"placement"} ELSE {})
+          IN {<<i, t>> : t \in RunMism(r, x.res, x.fam) \cup (IF x.pl # 1 THEN {"placement"} ELSE {})
                                    \cup {"KF:" \o d : d \in r.hit}}
-                 \cup (IF DesignInv(b, r) THEN {} ELSE {<<x.api, "SPEC.DesignInv">>})
+                 \cup (IF DesignInv(b, r) THEN {} ELSE {<<i, "SPEC.DesignInv">>})
           : i \in 1..Len(e.runs) }
 
 VARIABLES l, bad, known
